@@ -66,6 +66,7 @@ struct vsock {
 	int closed_by_app;
 	int rep_in, rep_out;	/* the latest poll reported this (non-spuriously); self-check of truthfulness */
 	int sigpipe;		/* a send without MSG_NOSIGNAL hit a closed peer */
+	int nonblock;		/* O_NONBLOCK is set (fcntl F_SETFL) */
 	/* bulk transfer (not logged byte by byte): bytes are identified by their address in the caller's buffer */
 	const uint8_t * bulk_base;
 	size_t bulk_len, bulk_sent;
@@ -85,7 +86,7 @@ extern int vk_faults_off;		/* drain: ignore all tapes */
 struct vkstats {
 	uint64_t polls, blocks, poll_eintr, poll_spurious, recv_calls, recv_short, recv_eagain, recv_eintr,
 	    recv_err, recv_eof, send_calls, send_short, send_eagain, send_eintr, send_err, accept_soft,
-	    accept_err, connect_calls, sock_fail, hup_reported, script_events, bytes_in, bytes_out, deadlock_breaks;
+	    accept_err, connect_calls, connect_blocking, bare_err, sock_fail, hup_reported, script_events, bytes_in, bytes_out, deadlock_breaks;
 };
 extern struct vkstats vk_stats;
 
@@ -108,6 +109,8 @@ extern int (* vk_on_connect)(struct vsock *, int port, struct vk_connect_answer 
 extern int (* vk_on_socket)(void);
 extern int (* vk_on_bind)(struct vsock *);	/* return errno to fail bind(), 0 to succeed */	/* return errno to fail socket(), 0 to succeed */
 extern void (* vk_on_close)(struct vsock *);
+extern int vk_bare_err;		/* 1: a pending socket error is reported by poll as POLLERR alone (no POLLIN/POLLOUT) */
+extern const char * vk_block_oracle;	/* oracle id for "the process is stuck in a blocking system call" (engine sets it) */
 extern void (* vk_on_recv)(struct vsock *, long result, int err);
 extern const void * vk_last_recv_buf;	/* buffer address of the recv call being reported */
 extern size_t vk_last_recv_len;
